@@ -8,4 +8,6 @@ CHECKS = {
     "C06": essa.c06,
     "C08": essa.c08,
     "C01": essa.c01,
+    "C11": essa.c11,
+    "C10": essa.c10,
 }
